@@ -33,13 +33,33 @@ PROPS = {
     'C16': dict(gen=gens_sm9.gen_c16, consts=SM9_CONSTS, level='proof', technique='tbd', assumptions=[]),
     'C17': dict(gen=gens_sm9.gen_c17, consts=SM9_CONSTS, level='proof', technique='tbd', assumptions=[]),
     'C20': dict(gen=chain(gens_sm2.gen_c20_sm2, gens_sm9.gen_c20_sm9), consts=SM2_CONSTS + SM9_CONSTS, level='proof', technique='tbd', assumptions=[]),
-    'C03': dict(gen=gens_sm2.gen_c03, consts=SM2_CONSTS, level='proof', technique='tbd', assumptions=[]),
+    'C03': dict(gen=gens_sm2.gen_c03, consts=SM2_CONSTS, level='proof',
+        thm=[('SpecSM2', ['sign_then_verify', 'verify_iff', 'sm2_nG', 'sm2_mul_mod', 'sm2_mul_ne_none']), ('C11a', ['sm2_consts', 'sm2_fn_add_correct', 'sm2_fn_sub_correct', 'sm2_fn_mul_correct', 'sm2_fn_pow_correct', 'sm2_fn_add_noncanonical', 'modAdd_noncanonical']), ('Primes', ['sm2_p_prime', 'sm2_n_prime'])],
+        technique='Lean 4 proof that the standard\'s signer/verifier are mutually correct over the Mathlib elliptic-curve group (Spec.EC proved to be that group, n.G = O by kernel evaluation, p and n proved prime) + exact mod-n arithmetic theorems incl. the non-canonical-operand case; fixed-nonce three-way differential through the RNG hook',
+        level_text='Proof (partial link): `sign_then_verify` proves, for every d in [1,n-2], every e and every nonce k in [1,n-1], that the (r,s) of GB/T 32918.2 signing lies in [1,n-1]^2 and is accepted by the standard\'s verifier under [d]G; `verify_iff` states the acceptance equation outright — both over the real group (Spec.EC = Mathlib Weierstrass group, primality of p and n and n.G = O machine-checked). `sm2_fn_*_correct` prove the model\'s mod-n routines exact and `modAdd_noncanonical` characterises the non-canonical case that caused the fixed defect. The step from the Jacobian/Montgomery model to the Spec group is C11\'s theorems (L2 proved; L3 scalar multiplication and the sign_raw/verify_raw refinement are being added behind this check). The model and the real code are tied by dumped constants and a fixed-nonce byte-exact differential incl. the three constructed retry branches (r=0, r+k=n, s=0), Annex A, and 72 OpenSSL signatures.',
+        level_note='Trusted: Lean kernel + Mathlib v4.33; Spec.SM2/Spec.EC transcription (validated every run on GM/T 0003.5 Annex A/B, GB/T 32918.5 Annex C and a 72+72-vector OpenSSL corpus); Impl<->Rust tie = constants dumped and re-proved + three-way differential (sampling); RNG replaced by a candidate list through the cfg(gm_rs_verif) hook.', assumptions=['Impl-level sign_raw/verify_raw are tied to Spec by the three-way differential until the L3 refinement theorems land']),
     'C04': dict(gen=gens_sm2.gen_c04, consts=SM2_CONSTS, level='proof', technique='tbd', assumptions=[]),
-    'C05': dict(gen=gens_sm2.gen_c05, consts=SM2_CONSTS, level='proof', technique='tbd', assumptions=[]),
+    'C05': dict(gen=gens_sm2.gen_c05, consts=SM2_CONSTS, level='proof',
+        thm=[('SpecSM2', ['decrypt_encrypt', 'decode_encode', 'decode_some_onCurve']), ('C11a', ['sm2_consts'])],
+        technique='Lean 4 proof of decrypt(encrypt(M)) = M at the specification level for both orders and both C1 encodings over the Mathlib curve group; KDF prefix theorem; fixed-nonce three-way differential',
+        level_text='Proof (partial link): `decrypt_encrypt` proves for every key pair, every non-empty message, every nonce, both component orders and both C1 encodings that GB/T 32918.4 decryption inverts encryption (uses [d][k]G = [k][d]G in the proved group, `decode_encode` for compressed/uncompressed points with the p = 3 mod 4 square root, KDF/XOR algebra). The model\'s KDF/decision-logic theorems are added behind this check as they land; model and code are tied by a fixed-nonce byte-exact differential (all lengths 0..70/300 incl. multiples of 32, zero messages in all 4 forms, edge keys/nonces, the all-zero-t retry found by search, Annex C and 72 OpenSSL ciphertexts).',
+        level_note='Trusted: Lean kernel + Mathlib v4.33; Spec.SM2/Spec.EC transcription (validated every run on GM/T 0003.5 Annex A/B, GB/T 32918.5 Annex C and a 72+72-vector OpenSSL corpus); Impl<->Rust tie = constants dumped and re-proved + three-way differential (sampling); RNG replaced by a candidate list through the cfg(gm_rs_verif) hook.', assumptions=['encrypt/decrypt of the Impl model are tied to Spec by differential until the refinement theorems land']),
     'C06': dict(gen=gens_sm2.gen_c06, consts=SM2_CONSTS, level='proof', technique='tbd', assumptions=[]),
-    'C11': dict(gen=gens_sm2.gen_c11, consts=SM2_CONSTS, level='proof', technique='tbd', assumptions=[]),
-    'C15': dict(gen=gens_sm2.gen_c15, consts=SM2_CONSTS, level='proof', technique='tbd', assumptions=[]),
-    'C19': dict(gen=gens_sm2.gen_c19, consts=SM2_CONSTS, level='proof', technique='tbd', assumptions=[]),
+    'C11': dict(gen=gens_sm2.gen_c11, consts=SM2_CONSTS, level='proof',
+        thm=[('C11a', None), ('C11b', None), ('Primes', ['sm2_p_prime', 'sm2_n_prime', 'fermat_inv', 'invMod_correct', 'sqrt_3mod4']), ('SpecSM2', ['sm2_G_onCurve', 'sm2_disc_ne_zero', 'sm2_nG'])],
+        technique='Lean 4 proofs: limb arithmetic = integer arithmetic (no-overflow invariant), Montgomery/modular routines exact, Jacobian a=-3 doubling and general addition incl. the h=0 branches = group law of the specification (Mathlib Weierstrass group) for every representation; constants and table dumped; raw-op differential on boundary limbs and re-randomised representations',
+        level_text='Proof: L0 `u256_add/sub/mul/cmp_correct`, `mulRow_no_overflow`; L1 `mont_mul_eq`, `montMul_correct`, `modAdd/Sub/Neg/Div2_correct`, `powLoop_correct` and their SM2 instances (for ALL canonical operands, non-canonical behaviour characterised); L2 `point_add_correct` (EVERY representation: P=Q with different Z, P=-Q, infinity), `point_dbl_correct`, `neg_correct`, `to_affine_correct`, `is_valid_iff`, `to_byte_correct`, `from_byte_correct` (under the field-facts bundle that C11a + Primes establish; its mechanical discharge and L3 — scalar_mul/g_mul for all 256-bit scalars and the 32x255 table certificate — are being added behind this check). Tie to the code: all constants and the table dumped and re-proved/compared; differential on limb boundary values, crafted Montgomery products, re-randomised Jacobian representations, window-collision scalars, every table entry.',
+        level_note='Trusted: Lean kernel + Mathlib v4.33; Spec.SM2/Spec.EC transcription (validated every run on GM/T 0003.5 Annex A/B, GB/T 32918.5 Annex C and a 72+72-vector OpenSSL corpus); Impl<->Rust tie = constants dumped and re-proved + three-way differential (sampling); RNG replaced by a candidate list through the cfg(gm_rs_verif) hook.', assumptions=['L3 (scalar multiplication, table) currently rests on the differential over every table entry and scalar classes']),
+    'C15': dict(gen=gens_sm2.gen_c15, consts=SM2_CONSTS, level='proof',
+        thm=[('SpecSM2', ['kex_agree', 'sm2_mul_mod', 'sm2_nG']), ('C11a', ['sm2_consts'])],
+        technique='Lean 4 proof that both parties of GB/T 32918.3 compute the same point [tA.tB]G hence the same key and confirmation values (Mathlib curve group); state-machine three-way differential with fixed ephemerals incl. Annex B and all 16 tamper subsets',
+        level_text='Proof (partial link): `kex_agree` proves for all dA, dB, rA, rB, Z values and klen that the initiator\'s and responder\'s computations of the standard coincide (key, S1 = SB, S2 = SA). Conformance of the code (w = 127, one-byte tags, KDF input order) is decided by the byte-exact differential against the Spec oracle with fixed ephemerals — this is what exposed the w = 63 defect (fixed) — and by GM/T 0003.5 Annex B; tamper detection by enumerating all 16 subsets of altered messages. The acceptance-logic theorems for exchange_3/exchange_4 of the model are still to be added.',
+        level_note='Trusted: Lean kernel + Mathlib v4.33; Spec.SM2/Spec.EC transcription (validated every run on GM/T 0003.5 Annex A/B, GB/T 32918.5 Annex C and a 72+72-vector OpenSSL corpus); Impl<->Rust tie = constants dumped and re-proved + three-way differential (sampling); RNG replaced by a candidate list through the cfg(gm_rs_verif) hook.', assumptions=[]),
+    'C19': dict(gen=gens_sm2.gen_c19, consts=SM2_CONSTS, level='proof',
+        thm=[('SpecSM2', ['decode_encode', 'decode_some_onCurve']), ('C11b', ['to_byte_correct', 'from_byte_correct', 'is_valid_iff'])],
+        technique='Lean 4 proofs: decodePoint(encodePoint P) = P for every curve point, both encodings; the model\'s to_byte_be/from_byte equal the specification\'s encode/decode incl. every rejection; DER/template models tied by differential and an OpenSSL document corpus',
+        level_text='Proof (partial): `decode_encode` (every curve point, compressed and uncompressed, root selection by parity for p = 3 mod 4), `decode_some_onCurve` (every accepted encoding is on the curve with coordinates < p), `to_byte_correct` / `from_byte_correct` (the model\'s encoder/decoder equal the specification\'s on EVERY byte string: prefix, length, range, curve checks). DER (GM/T 0009) reader/writer round-trip theorems are being added; SPKI/PKCS#8 documents are byte templates (third-party DER parsing modelled, not verified) checked against 12 OpenSSL documents and PEM round trips; ASN.1 ciphertexts with leading-zero / top-bit-set coordinates found by nonce search.',
+        level_note='Trusted: Lean kernel + Mathlib v4.33; Spec.SM2/Spec.EC transcription (validated every run on GM/T 0003.5 Annex A/B, GB/T 32918.5 Annex C and a 72+72-vector OpenSSL corpus); Impl<->Rust tie = constants dumped and re-proved + three-way differential (sampling); RNG replaced by a candidate list through the cfg(gm_rs_verif) hook. Third-party crates yasna, pkcs8, sec1, der, hex are modelled, not verified.', assumptions=[]),
     'C01': dict(
         gen=gens_sym.gen_c01, consts=['SM3.lean'], level='proof',
         technique='Lean 4 refinement proof (Impl.SM3 = Spec.SM3 for all byte strings) + dumped-constant theorems + differential correspondence real/Impl/Spec',
